@@ -218,6 +218,8 @@ func (w *verifWorld) inv(check func(bool, string)) {
 				sc = cc.fresh[i-vM]
 			}
 			check(verifImplies(inPool, sc.addrTag == verifAddrTag(gb.addrs)), "C20: I-addr pool connection does not use the most recently resolved address list")
+			_, isRepl := gb.refreshingScRefs[w.conn(i)]
+			check(verifImplies(isRepl, sc.addrTag == verifAddrTag(gb.addrs)), "C20: I-addr replacement connection of a refresh in flight does not use the most recently resolved address list")
 		}
 	}
 }
